@@ -62,6 +62,17 @@ where
     }
 }
 
+#[cfg(feature = "verif-hooks")]
+impl<T, C> SplaySet<T, C>
+where
+    C: Fn(&T, &T) -> Ordering,
+{
+    /// Read-only, non-splaying in-order walk: (element, depth in the tree).
+    pub fn verif_inorder(&self) -> Vec<(&T, usize)> {
+        self.tree.verif_inorder().into_iter().map(|(k, _, d)| (k, d)).collect()
+    }
+}
+
 impl<T, C> IntoIterator for SplaySet<T, C>
 where
     C: Fn(&T, &T) -> Ordering,
